@@ -35,6 +35,7 @@ MICRO = ("36.0306", "1")                 # 36 uL / 1 umol per unit (a heavy solu
                                          # thresholds and roundings in base units (mol, L) show
 NANO = ("36.0306", "0.00137")             # 36 uL / 1.37 nmol per unit (not a multiple of 0.1 nmol): one step from the initial state only
 PICO = ("36.0306", "0.00037")            # 36 uL / 0.37 nmol per unit: residues and aliquots below a nanomole (and below 1e-3 storage units)
+SUBDISPLAY = ("36.0306", "0.032")         # 36 uL / 32 nmol per unit: single steps move less than the display precision of umol and mg
 NANOSOL = ("3.603061", "0.00137")        # 3.6 uL / 1.37 nmol per unit: solutions made from nanomoles of stock and of solvent
 TINY = ("36.0306", "0.1")                # 36 uL / 0.1 umol per unit: sub-micromole amounts (a heavy solute)
 BIG = ("1801530", "100000000")           # 1.8 L / 100 mol per unit: stays far above the rounding quantum of every storage configuration
@@ -279,6 +280,9 @@ def plan(prop, tier, seed):
         if not q:
             legs.append(lambda: recipe_leg("RecipeProg", 3, 16, DECIMAL, seed, tag="dec"))
             legs.append(lambda: recipe_leg("RecipeCore", 9, 16, REALISTIC, seed, sim=(40, 9, seed * 100 + 1), tag="sim"))
+    if prop in ("C09", "C15"):
+        # steps that each move less than a display unit: the answer is the rounded SUM, not the sum of rounded steps
+        legs.append(lambda: recipe_leg("RecipeProg", 3, 16, SUBDISPLAY, seed, env_extra=skipadm, tag="sub"))
     if prop in ("C09", "C15", "C16"):
         # programs continued after a refused bake (declared but unused): the refusal changed nothing, stages included
         legs.append(lambda: recipe_leg("RecipeStageQ", 6, 6, REALISTIC, seed) if q else recipe_leg("RecipeStage", 6, 8, REALISTIC, seed))
